@@ -106,8 +106,9 @@ if __name__ == "__main__":
     elif cmd == "detect-scratch":
         d = sys.argv[2]
         pids = [a for a in sys.argv[3:] if not a.startswith("--")]
-        r = detect_scratch(d, pids)
-        json.dump(r, open(os.path.join(d, "detect.json"), "w"), indent=1)
+        seed = os.environ.get("DETECT_SEED", "0")
+        r = detect_scratch(d, pids, seed=seed)
+        json.dump(r, open(os.path.join(d, "detect.json" if seed == "0" else f"detect-seed{seed}.json"), "w"), indent=1)
         print(os.path.basename(os.path.abspath(d)), {p: (v["rc"], (v["violation"] or [""])[0][-60:]) for p, v in r.items()})
     elif cmd == "detect":
         d = sys.argv[2]
